@@ -50,6 +50,12 @@ def one_trace(exe, args, use_driver=True):
                 res["summary"][k] = int(v)
     if use_driver and lines:
         drc, pred, derr = run_driver(out)
+        for l in derr.splitlines():
+            if l.startswith("coverage "):
+                res["branches"] = {}
+                for t in l.split()[1:]:
+                    k, _, v = t.rpartition("=")
+                    res["branches"][k] = res["branches"].get(k, 0) + int(v)
         if drc != 0:
             res["diff"] = (0, "<driver crashed>", derr[-300:])
             return res
@@ -63,6 +69,32 @@ def one_trace(exe, args, use_driver=True):
             if len(lines) != len(p):
                 res["diff"] = (n, lines[n] if n < len(lines) else "<eof>", p[n] if n < len(p) else "<eof>")
     return res
+
+
+# every label the driver can emit (lean/MemVerif/Drv/Cover.lean); a family counts as exercised when one of its labels was hit
+ALL_BRANCHES = (
+    # (cursor pairs are adjacent list positions: (B, E) only for the empty list; with ldp = B or ld = E the `front`/`back` tests fire
+    # before the cursor / one of the interval tests can - those combinations are structurally unreachable and not listed)
+    ["ord.find_pos.%s.cur=%s" % (c, px) for c, pxs in (("front", ("Bn", "nE", "nn")), ("back", ("Bn", "nE", "nn")), ("cursor", ("nn",)),
+                                                        ("interval-low", ("nE", "nn")), ("interval-high", ("Bn", "nn"))) for px in pxs]
+    + ["ord.find_pos.empty.cur=BE", "ord.alloc_array.node-path", "ord.alloc_array.no-run", "ord.alloc_array.ld-in-run",
+       "ord.alloc_array.ldp-is-last", "ord.alloc_array.cursor-outside", "ord.alloc_array.cursor-outside.run-at-front",
+       "ord.pop", "ord.pop.head-is-ld", "ord.pop.head-is-ldp",
+       "free.push", "free.pop", "free.alloc_array.node-path", "free.alloc_array.no-run", "free.alloc_array.run-at-head",
+       "free.alloc_array.run-inside",
+       "small.find_chunk.dealloc-cursor", "small.find_chunk.alloc-cursor", "small.find_chunk.search-up", "small.find_chunk.search-down",
+       "small.alloc.alloc-cursor", "small.alloc.dealloc-cursor", "small.alloc.search", "list.empty->grow",
+       "coll.reserve.carve", "coll.reserve.rest=0+new-block", "coll.reserve.rest-inserted+new-block",
+       "coll.reserve.rest-too-small+new-block", "coll.def_capacity-raised", "coll.bad-node-size",
+       "stack.alloc.fits", "stack.alloc.fits-exactly", "stack.alloc.grow-from-cache", "stack.alloc.grow-new-block", "stack.try_alloc",
+       "stack.unwind.same-block", "stack.unwind.1-block", "stack.unwind.2+blocks", "stack.shrink.empty-cache", "stack.shrink.cached",
+       "stack.move", "stack.move_assign", "pool.move", "pool.move_assign", "pool.swap3"])
+
+
+def branches_not_reached(hit):
+    fams = set(k.replace("array:", "").split(".")[0] for k in hit)
+    norm = set(k.replace("array:", "") for k in hit)
+    return sorted(b for b in ALL_BRANCHES if b.split(".")[0] in fams and b not in norm)
 
 
 HARNESS_LIMIT = 77  # the instrumented region ran out of space: the run says nothing about the library
@@ -123,6 +155,11 @@ def run_subjects(ctx, pid_tag, exe_by_cfg, jobs, classify=None, use_driver=True,
             for k_, v_ in res["summary"].items():
                 if k_ not in ("ops", "ok", "null", "throw", "grow", "up_fail", "oracle_checks"):
                     st[k_] = st.get(k_, 0) + v_
+            br = ctx.coverage.setdefault("model_branches", {})
+            for k_, v_ in res.get("branches", {}).items():
+                if k_.startswith("coll.bucket="):
+                    k_ = "coll.bucket=*"
+                br[k_] = br.get(k_, 0) + v_
             if failing(res):
                 fails.append((j, res))
     for key, st in stats.items():
